@@ -45,13 +45,14 @@ def run(ctx):
         pc.cfg(2, [2, 2, 1], 3, 4, raw=0) + '|' + pc.cfg(2, [1, 1, 1], 3, 3, raw=1),
         pc.cfg(3, [1, 2, 99, 1], 2, 3, filt=[(2, 1)]),
         pc.cfg(2, [1, 99, 2], 1, 3, api=1),
+        pc.cfg(1, [1, 1], 1, 40),      # serial stage with more queued items than the inline depth limit (32)
     ]
     progs = fixed + [_rand_prog(rng) for _ in range(20 if thorough else 4)]
     n = 12 if thorough else 3
     tr, tot = pc.run_programs(ctx, exe, progs, n, ctx.seed, WHAT, 'fixed and random clean pipelines')
     if thorough:
         # a serial stage with more queued items than the inline depth limit (32): depth-guard path
-        deep = [pc.cfg(1, [1, 1], 1, 40), pc.cfg(1, [1, 1], 0, 36)]
+        deep = [pc.cfg(2, [1, 1, 1], 1, 40), pc.cfg(1, [1, 1], 2, 40), pc.cfg(1, [1, 1], 0, 36)]
         pc.run_programs(ctx, exe, deep, 4, ctx.seed + 1, WHAT, 'serial stage deeper than the inline depth limit', maxsteps=60000)
         san = pc.build(ctx, sanitize=True)
         pc.run_programs(ctx, san, progs[:12], 3, ctx.seed + 2, WHAT, 'sanitised build', sanitized=True)
